@@ -48,6 +48,7 @@ func pinned(r *core.Run) {
 	}
 	accepted := func(o *outcome) bool { return o.Inconclusive == "" && o.TwinChanged && o.RoChanged && o.RoErr == "" }
 	for k, w := range []pw{
+		// F33 was fixed in /repo (d9ff0608d): the line in findings/C42.txt is "fixed:", so a regression of this witness is reported as a VIOLATION
 		{sigF33, modeTxnRO, "insert-values", "DML on a permanent table inside START TRANSACTION READ ONLY panics (nil sql.TemporaryTable) instead of returning ErrReadOnlyTransaction",
 			func(o *outcome) bool { return o.RoPanicSig == sigF33 }},
 		{sigTxnDDL, modeTxnRO, "create-table", "DDL inside START TRANSACTION READ ONLY is executed (MySQL: error 1792)", accepted},
